@@ -146,11 +146,14 @@ var c02Three bool
 func c02Data(level int) map[string]any {
 	m := map[string]any{}
 	if c02Three {
-		switch ndChoice(3) {
+		switch ndChoice(4) {
 		case 0:
 			m["b"] = 6 + level
 		case 1:
 			m["c"] = map[string]any{"z": level}
+		case 2:
+			// an empty map: still one private copy per target
+			m["c"] = map[string]any{}
 		default:
 			// a list of maps: merged into several targets it must be copied for each
 			m["l"] = []any{map[string]any{"z": level}}
@@ -164,13 +167,19 @@ func c02Data(level int) map[string]any {
 		return m
 	}
 	if level == 0 || vTier() > 0 {
-		switch ndChoice(4) {
+		n := 4
+		if vTier() > 0 {
+			n = 5
+		}
+		switch ndChoice(n) {
 		case 1:
 			m["a"] = 7
 		case 2:
 			m["a"] = map[string]any{"y": 2}
 		case 3:
 			m["l"] = []any{map[string]any{"y": 2}, []any{3}}
+		case 4:
+			m["a"] = map[string]any{}
 		}
 		if vTier() > 0 && ndChoice(2) == 1 {
 			m["b"] = 6
